@@ -20,6 +20,7 @@ pub fn store_runtime() -> Vec<u8> {
         (10, "multi"),
         (12, "echo"),
         (14, "burn"),
+        (15, "blockinfo"),
     ] {
         a.op(DUP1).push(code).op(EQ).jumpi(name);
     }
@@ -154,6 +155,21 @@ pub fn store_runtime() -> Vec<u8> {
     a.jump("burn_loop");
     a.label("burn_end").op(STOP);
 
+    // 0f : RETURN(NUMBER, BLOCKHASH(NUMBER-1), CHAINID)  (context that predictions may depend on)
+    a.label("blockinfo");
+    a.op(NUMBER).op(PUSH0).op(MSTORE);
+    a.push(1).op(NUMBER).op(SUB).op(BLOCKHASH).push(32).op(MSTORE);
+    a.op(CHAINID).push(64).op(MSTORE);
+    a.push(96).op(PUSH0).op(RETURN);
+
+    a.finish()
+}
+
+/// init code whose runtime code is the 32-byte block number at creation
+pub fn number_initcode() -> Vec<u8> {
+    let mut a = Asm::new();
+    a.op(NUMBER).op(PUSH0).op(MSTORE);
+    a.push(32).op(PUSH0).op(RETURN);
     a.finish()
 }
 
@@ -289,6 +305,9 @@ pub fn cd_burn(n: u16) -> Vec<u8> {
     let mut d = vec![14u8];
     d.extend_from_slice(&n.to_be_bytes());
     d
+}
+pub fn cd_blockinfo() -> Vec<u8> {
+    vec![15]
 }
 pub fn cd_probe(distances: &[u16]) -> Vec<u8> {
     let mut d = vec![];
